@@ -20,7 +20,10 @@ MANIFEST_ENTRY = {
                  "linear step bound for the tokenizer; watchdog-supervised fuzzing of the real pipeline for crashes, aborts and time",
     "text": "Proved: every unwrap/expect/panic!/todo!/unreachable! outside tests in the files an input reaches is one of five reviewed "
             "sites (a new one breaks the obligation); the tokenizer model takes at most one step per character; number conversions, "
-            "the subrange rule and decoding have an answer (value or failure) for every input of every size. NOT provable in this "
+            "the subrange rule and decoding have an answer (value or failure) for every input of every size; the recursion of the "
+            "statement / expression parser model needs at most three units of fuel per token on every well-formed statement list, "
+            "whatever its size and nesting (the termination argument of the recursive-descent parser on the modelled sub-language; "
+            "the model agrees with parse_program on accept / reject for token-level mutants, see C01). NOT provable in this "
             "family and therefore observed only: the wall-clock budget, native stack depth and process aborts. Those are tested by "
             "running tokenize, parse, analyze and render on arbitrary bytes, all single and paired token kinds, token soups, "
             "token-level mutants of valid programs, extreme literals and nesting to depth 12 under catch_unwind with a watchdog.",
